@@ -104,7 +104,7 @@ Proof.
     + intros rq Ho. destruct (T4 rq (O2 rq Ho)) as [Hw Hsg]. split; auto.
       apply (rq_wf_sub rules env F rank s s'); auto. intros t0 y Hy. destruct (Hfw t0 y Hy) as (z & Hz & Hs & _). exists z. split; auto. rewrite Hs. lia.
     + intros rq Hin. apply Hcurk. now apply T5.
-    + intros t0 z Hz. destruct (Hbw t0 z Hz) as (y & Hy & E1 & E2 & E3 & E4 & E5 & E6). destruct (T6 t0 y Hy) as [K1 K2 K3 K4 K5 K6 K7 K8 K9 K10].
+    + intros t0 z Hz. destruct (Hbw t0 z Hz) as (y & Hy & E1 & E2 & E3 & E4 & E5 & E6). destruct (T6 t0 y Hy) as [K1 K2 K3 K4 K5 K6 K7 K8 K9 K10 K11].
       constructor; rewrite ?E1, ?E2; auto.
       * intros i Hu Hn0. destruct (K3 i Hu Hn0) as (rq & H1 & H2). exists rq. split; auto.
       * destruct (N.eq_dec t0 t) as [->|E]; [rewrite (E6 eq_refl); discriminate|rewrite (E5 E); exact K5].
@@ -114,6 +114,8 @@ Proof.
       * intros d. rewrite Hdeps. intros Hd. destruct (K8 d Hd) as [H|(rq & H1 & H2)]; [left; now apply Hcurk|right; exists rq; split; auto].
       * intros d. rewrite Hdeps. apply K9.
       * now rewrite E4.
+      * destruct (N.eq_dec t0 t) as [->|E]; [intros _; destruct RT as [-> _]; unfold r'; apply completed_result_sig|].
+        intros [H|H]; [congruence|]. destruct (RO t0 E) as [-> _]. now apply K11.
     + destruct T7 as [H|[(k & H)|[H|H]]]; [now left|right; left; exists k; now rewrite (proj1 (HP k))| |right; right; right; now apply Hcurk].
       right. right. left. destruct (N.eq_dec root t) as [->|E]; [apply Hip|]. unfold is_in_progress in *. now destruct (RO root E) as [_ ->].
   - (* stored results *)
@@ -142,7 +144,7 @@ Notation key_of_slot := (key_of_slot rules env F rank).
 Lemma task_value_cv2 s t ti : task_ok2 s t ti -> (forall rq, Oreq2 s rq -> iq_task rq <> Some t) ->
   Some (task_value rules env F t ti) = cvK t.
 Proof.
-  intros [K1 K2 K3 K4 K5 K6 K7 K8 K9 K10] Hno.
+  intros [K1 K2 K3 K4 K5 K6 K7 K8 K9 K10 K11] Hno.
   assert (Hfilled : forall i, used rules t i -> (i < length (ti_slots ti))%nat -> exists v, nth_error (ti_slots ti) i = Some (Some v)).
   { intros i Hu Hl. destruct (nth_error (ti_slots ti) i) as [[v|]|] eqn:E; [eauto| |apply nth_error_None in E; lia].
     destruct (K3 i Hu E) as (rq & Ho & Ht & _). exfalso. exact (Hno rq Ho Ht). }
@@ -217,7 +219,7 @@ Proof.
       apply (rq_wf_sub rules env F rank s s'); auto. intros t0 y Hy. destruct (Hfw t0 y Hy) as (z & Hz & Hs & _). exists z. split; auto. rewrite Hs. lia.
     + intros rq Hin. apply Hcurk. now apply T5.
     + intros t0 z. rewrite TK. destruct (N.eqb t0 t) eqn:E; intros Hz.
-      * apply N.eqb_eq in E. subst t0. inversion Hz. subst z. destruct (T6 t ti Hg) as [K1 K2 K3 K4 K5 K6 K7 K8 K9 K10].
+      * apply N.eqb_eq in E. subst t0. inversion Hz. subst z. destruct (T6 t ti Hg) as [K1 K2 K3 K4 K5 K6 K7 K8 K9 K10 K11].
         constructor; cbn [ti_with_pending ti_slots ti_branched ti_pending ti_disc]; auto.
         -- intros i Hu Hn0. destruct (K3 i Hu Hn0) as (rq & H1 & H2). exists rq. split; auto.
         -- intros v Hv. inversion Hv. now subst.
@@ -225,12 +227,14 @@ Proof.
         -- intros i y0 Hi Hy0. rewrite Hdeps. destruct (K7 i y0 Hi Hy0) as [(rq & H1 & H2)|H]; [left; exists rq; split; [now apply HU|auto]|now right].
         -- intros d. rewrite Hdeps. intros Hd. destruct (K8 d Hd) as [H|(rq & H1 & H2)]; [left; now apply Hcurk|right; exists rq; split; auto].
         -- intros d. rewrite Hdeps. apply K9.
-      * destruct (T6 t0 z Hz) as [K1 K2 K3 K4 K5 K6 K7 K8 K9 K10]. constructor; auto.
+        -- rewrite HR. exact K11.
+      * destruct (T6 t0 z Hz) as [K1 K2 K3 K4 K5 K6 K7 K8 K9 K10 K11]. constructor; auto.
         -- intros i Hu Hn0. destruct (K3 i Hu Hn0) as (rq & H1 & H2). exists rq. split; auto.
         -- rewrite Hst. exact K6.
         -- intros i y0 Hi Hy0. rewrite Hdeps. destruct (K7 i y0 Hi Hy0) as [(rq & H1 & H2)|H]; [left; exists rq; split; [now apply HU|auto]|now right].
         -- intros d. rewrite Hdeps. intros Hd. destruct (K8 d Hd) as [H|(rq & H1 & H2)]; [left; now apply Hcurk|right; exists rq; split; auto].
         -- intros d. rewrite Hdeps. apply K9.
+        -- rewrite HR. exact K11.
     + destruct T7 as [H|[(k & H)|[H|H]]]; [now left|right; left; exists k; now rewrite (proj1 (HP k))| |right; right; right; now apply Hcurk].
       right. right. left. unfold is_in_progress in *. rewrite HK. destruct (N.eqb root t); auto.
   - apply (BC_change rules F (fun k => N.eqb k t) s s'); auto.
@@ -264,7 +268,7 @@ Proof.
     + intros k Hc. unfold stored. rewrite HRes. now apply T3, Hcurk.
     + intros rq Ho. apply HO in Ho. destruct (T4 rq Ho) as [Hw Hsg]. split; auto. intros t Hk Hor. destruct (Hw t Hk Hor) as (H1 & ti & Hg & Hl). split; auto. exists ti. now rewrite Htk.
     + intros rq. rewrite Hf. intros Hin. now apply Hcurk, T5.
-    + intros t ti. rewrite Htk. intros Hg. destruct (T6 t ti Hg) as [K1 K2 K3 K4 K5 K6 K7 K8 K9 K10].
+    + intros t ti. rewrite Htk. intros Hg. destruct (T6 t ti Hg) as [K1 K2 K3 K4 K5 K6 K7 K8 K9 K10 K11].
       assert (Hd : deps s' t = deps s t) by (unfold deps; now rewrite HRes).
       constructor; auto.
       * intros i Hu' Hn0. destruct (K3 i Hu' Hn0) as (rq & H1 & H2). exists rq. split; auto. now apply HO.
@@ -272,6 +276,7 @@ Proof.
       * intros i y Hi' Hy. rewrite Hd. destruct (K7 i y Hi' Hy) as [(rq & H1 & H2)|H]; [left; exists rq; split; [now apply HU|auto]|now right].
       * intros d. rewrite Hd. intros Hin. destruct (K8 d Hin) as [H|(rq & H1 & H2)]; [left; now apply Hcurk|right; exists rq; split; auto; now apply HO].
       * intros d. rewrite Hd. apply K9.
+      * rewrite Hft, HRes. exact K11.
     + rewrite Hi, (in_progress_of_kind s s' root (HK root)). destruct T7 as [H|[(k & H)|[H|H]]]; auto; [right; left; exists k; now rewrite HR|right; right; right; now apply Hcurk].
   - apply (BC_change rules F (fun _ => false) s s'); auto; try discriminate. intros k. rewrite HR. apply HC.
   - apply (BS_change rules env F rank (fun _ => false) x s s'); auto; try discriminate.
